@@ -31,7 +31,7 @@ def select_fields(fields, resources=None, regex=True):
                 )
                 new_fields = []
                 for selected_field in fields:
-                    selected_field = re.compile('^(?:{})$'.format(
+                    selected_field = re.compile('^(?:{})\\Z'.format(
                         selected_field
                         if regex
                         else re.escape(selected_field)))
